@@ -167,12 +167,20 @@ def run(rep, tier, seed):
         if stray:
             oi, r = stray[0]
             rep.violation("[C08 %s] %s writes %d bytes at device offset %d: %s" % (label, sc.short(ops[oi].line, 50), r[4], r[3], r[0]), {"script": jd.script[:oi + 1]}); continue
-        if bad and bad[0].kind == "err" and bad[0].payload.split(" ")[0] == "NotEnoughSpace" and b.bits != 32 and in_root \
-                and b.root_entries - getattr(b, "root_used_slots", 0) < 4:
-            # the small fixed root of this image has no room for the new entry: NotEnoughSpace is the documented outcome
-            # (the histories of C01/C03/C05 judge what such a failure may leave behind); nothing more is claimed for this image
-            rep.cov["root_full_images"] = rep.cov.get("root_full_images", 0) + 1
-            continue
+        if bad and bad[0].kind == "err" and bad[0].payload.split(" ")[0] == "NotEnoughSpace":
+            # out of space on a small image: justified when the raw table has no (not enough) free cluster left, or when the
+            # destination is the fixed root and no run of free slots is long enough; nothing more is claimed for such an image
+            oi_bad = m0 + mops.index(bad[0])
+            info = jd.info.get(oi_bad)
+            nm = sc.opname(bad[0])
+            if nm in ("create_file", "create_dir", "rename"):
+                msg = sc.unjustified_nospace(jd, oi_bad, bad[0]) if info is not None else "no decode available"
+            else:
+                msg = None if (info is not None and int(info["free"]) == 0) else "the raw table still has %s free clusters" % (info["free"] if info else "?")
+            if msg is None:
+                rep.cov["out_of_space_images"] = rep.cov.get("out_of_space_images", 0) + 1
+                continue
+            rep.violation("[C08 %s] %s -> NotEnoughSpace is not justified: %s" % (label, sc.short(bad[0].line, 50), msg), {"script": jd.script[:oi_bad + 1]}); continue
         if bad:
             rep.violation("[C08 %s] modifying the foreign volume failed: %s -> %s %s" % (label, sc.short(bad[0].line, 50), bad[0].kind, bad[0].payload[:40]),
                           {"script": jd.script[:m0 + nmut + 2]}); continue
